@@ -166,6 +166,8 @@ type System struct {
 	probes       int                  // forged-message probes of the validators (forge.go)
 	validated    map[int]map[int]bool // validated[p][m]: p's validator has accepted message m
 	lastProbe    map[int][5]uint64
+	progressSig  string // liveness: the honest participants' (instance, round, phase, finished) vector ...
+	progressAt   int    // ... and the event at which it last changed
 	// liveness accounting
 	stabRound uint64 // max honest round at the last deviation / release
 	ended     string
@@ -263,6 +265,26 @@ func (s *System) slowLink(from, to int, ph gpbft.Phase) bool {
 		}
 	}
 	return false
+}
+
+// startsLate reports whether participant i is the late starter of the "latestart" policy and its start is still
+// being postponed: until every other honest participant is done, or one of them has reached FlushRound.
+func (s *System) startsLate(i int) bool {
+	pol := s.mode.Policy
+	if pol.Kind != "latestart" || i != pol.Lagger || s.hosts[i].started {
+		return false
+	}
+	waiting := false
+	for _, j := range s.w.sc.Honest() {
+		if j == i || s.hosts[j].finished {
+			continue
+		}
+		if pol.FlushRound > 0 && s.parts[j].Progress().Round >= pol.FlushRound {
+			return false
+		}
+		waiting = true
+	}
+	return waiting
 }
 
 // policyRelease reports whether the withheld messages are due to be released.
@@ -425,6 +447,9 @@ func (s *System) nextTimer() (int, time.Duration, bool) {
 		if h.finished || h.alarm.IsZero() {
 			continue
 		}
+		if s.startsLate(i) {
+			continue // late-start policy: its start timer is not due yet (messages reach it and are queued meanwhile)
+		}
 		d := h.alarm.Sub(h.now)
 		if d < 0 {
 			d = 0
@@ -585,8 +610,12 @@ func (s *System) apply(a action) error {
 		for _, i := range s.w.sc.Honest() {
 			s.hosts[i].now = s.hosts[i].now.Add(dur)
 		}
+		late := s.mode.Policy.Kind == "latestart" && a.to == s.mode.Policy.Lagger && !s.hosts[a.to].started
 		s.fire(a.to)
 		s.release(a.to)
+		if late {
+			s.noteStabilisation() // the late starter joins: from here on the network is timely
+		}
 	case 'E':
 		h := s.hosts[a.to]
 		if h == nil || h.finished || h.alarm.IsZero() {
@@ -615,6 +644,9 @@ func (s *System) apply(a action) error {
 		if err != nil {
 			return fmt.Errorf("forge %s: %w", a.spec, err)
 		}
+		if d := s.forgeDonor(a.spec[1:]); d >= 0 && s.validated[a.to][d] {
+			_, _ = validateVia(s.parts[a.to], s.msgs[d].msg, a.spec[0]) // the genuine message it derives from, seen again
+		}
 		rec := s.addMsg(s.w.sc.Byz, m, true)
 		s.byzSent++
 		s.deliverVia(rec, a.to, a.spec[0])
@@ -635,6 +667,16 @@ func (s *System) apply(a action) error {
 		return fmt.Errorf("unknown action kind %c", a.kind)
 	}
 	s.mon.afterEvent()
+	if s.mode.Liveness {
+		var sb strings.Builder
+		for _, i := range s.w.sc.Honest() {
+			pr := s.parts[i].Progress()
+			fmt.Fprintf(&sb, "%d.%d.%d.%v|", pr.ID, pr.Round, pr.Phase, s.hosts[i].finished)
+		}
+		if sig := sb.String(); sig != s.progressSig {
+			s.progressSig, s.progressAt = sig, s.events
+		}
+	}
 	return nil
 }
 
@@ -717,6 +759,11 @@ func (s *System) deliverVia(rec *msgRec, to int, route byte) {
 	s.mon.onAPIError(to, "ReceiveMessage", err)
 }
 
+// stallEvents: a liveness run in which no honest participant changes its (instance, round, step) for this many
+// consecutive events, with no message withheld, has stopped making progress: time passes (timers keep firing,
+// rebroadcasts keep being delivered) and nothing changes. A healthy run moves at least every few timeouts.
+const stallEvents = 1500
+
 // done reports whether the execution has ended and why.
 func (s *System) done() (string, bool) {
 	all := true
@@ -728,6 +775,10 @@ func (s *System) done() (string, bool) {
 	if all && (len(s.w.sc.OddSupp) == 0 || len(s.queue) == 0) {
 		// participants with a diverging view cannot decide; the run ends once everything sent has reached them
 		return "all-decided", true
+	}
+	if s.mode.Liveness && s.events-s.progressAt >= stallEvents && len(s.parked) == 0 && len(s.held) == 0 {
+		// nobody has moved for stallEvents consecutive events (deliveries and timers) although nothing is withheld
+		return "stalled", true
 	}
 	if s.events >= s.mode.Horizon {
 		return "horizon", true
